@@ -22,8 +22,9 @@ import (
 const smallBufferSize = 64
 const maxInt = int(^uint(0) >> 1)
 
-// buffers are reusable fixed-side buffers for faster encoding.
-var buffers = newBufferPool(MaxMessageSize)
+// buffers are reusable fixed-side buffers for faster encoding, large enough for the
+// largest message body along with the space reserved for the header.
+var buffers = newBufferPool(MaxMessageSize + maxHeaderSize)
 
 // bufferPool represents a thread safe buffer pool
 type bufferPool struct {
